@@ -105,9 +105,20 @@ def expected(cols, lids):
     E["FD"] = [[Fraction(c, 2) + 1 for c in cols[p]] for p in range(P)]
     E["FB"] = [[v for c in cols[p] for v in (10 * c, 10 * c + 1)] for p in range(P)]
     E["FBI"] = E["FB"]
+    row = lambda g: [((5 * g + t) % 11, Fraction(g) + Fraction(t, 4)) for t in range(g % 3)]
+    E["FR"] = [[v for c in cols[p] for v in [len(row(c))] + [x for cv in row(c) for x in cv]] for p in range(P)]
+    E["FRP"] = [[v for c in cols[p] for v in [len(row(c))] + [cv[0] for cv in row(c)]] for p in range(P)]
+    E["FRQ"] = E["FRP"]
     contrib = {}     # gid -> list of (p, j)
     for p in range(P):
         for j, c in enumerate(cols[p]): contrib.setdefault(c, []).append((p, j))
+    def rrow(p, j):
+        c = cols[p][j]
+        return [((3 * c + p) % 13, Fraction(p + 1) + Fraction(j, 8))] + ([((3 * c + p + 5) % 13, Fraction(-j))] if c % 2 else [])
+    def rr(g):
+        e = sorted(x for (p, j) in contrib.get(g, []) for x in rrow(p, j))
+        return [len(e)] + [v for cv in e for v in cv]
+    E["RR"] = [[v for g in lids[q] for v in rr(g)] for q in range(P)]
     yi = lambda p, j: (p + 1) * 100 + j
     ysel = lambda p, j: -1 if (cols[p][j] + p) % 3 == 0 else cols[p][j]
     E["RS"] = [[1000 * g + sum(Fraction(yi(p, j), 4) for (p, j) in contrib.get(g, [])) for g in lids[q]] for q in range(P)]
